@@ -568,6 +568,112 @@ def unit_table(unit):
                     judge("table.setitem.region", case, t, cs, {j: list(enumerate(sc[j])) for j in range(2)}, raised)
                     if not same_list(list(src._underlying[bad]._underlying), sc[bad]):
                         agg.violation(V("table.setitem.region", "source-table-modified", case))
+    # ---- systematic 2-D assignment: every row-spec x column-spec x value form against the per-column list model
+    for cs in colsets:
+        ncol, nrow = len(cs), len(cs[0][1])
+        names = [nm for nm, _ in cs]
+        d = {"table": cs}
+        row_specs = [("int", r) for r in range(-nrow - 1, nrow + 1)] + [("slice", sl) for sl in ((None, None, None), (0, 1, None), (1, None, None), (None, None, -1), (0, 0, None))] + \
+                    [("mask", tuple(m)) for m in itertools.product([True, False], repeat=nrow)]
+        col_specs = [("int", c) for c in range(-ncol, ncol + 1)] + [("name", nm) for nm in names] + [("name", "no_such")] + \
+                    [("slice", sl) for sl in ((None, None, None), (0, 1, None), (1, None, None), (None, None, -1))] + \
+                    [("names", tuple(p)) for p in itertools.permutations(names, 2)] + [("ints", (0, ncol - 1))] + [("mixed", (names[0], ncol - 1))] + [("all", None)]
+        for rk, rv in row_specs:
+            if rk == "int":
+                rows = [rv % nrow] if -nrow <= rv < nrow else None
+                rkey = rv
+            elif rk == "slice":
+                rows = list(range(nrow))[slice(*rv)]
+                rkey = slice(*rv)
+            else:
+                rows = [i for i, b in enumerate(rv) if b]
+                rkey = list(rv)
+            for ck, cv in col_specs:
+                if ck == "int":
+                    cols = [cv % ncol] if -ncol <= cv < ncol else None
+                    ckey = cv
+                elif ck == "name":
+                    cols = [names.index(cv)] if cv in names else None
+                    ckey = cv
+                elif ck == "slice":
+                    cols = list(range(ncol))[slice(*cv)]
+                    ckey = slice(*cv)
+                elif ck == "names":
+                    cols = [names.index(x) for x in cv]
+                    ckey = tuple(cv)
+                elif ck == "ints":
+                    cols = [c % ncol for c in cv]
+                    ckey = list(cv)
+                elif ck == "mixed":
+                    cols = [names.index(cv[0]), cv[1] % ncol]
+                    ckey = tuple(cv)
+                else:
+                    cols = list(range(ncol))
+                    ckey = None
+                # value forms
+                vforms = [("scalar", 7), ("scalar-incompatible", "zz"), ("scalar-none", None)]
+                if rows is not None and cols is not None and rk == "int":
+                    vforms.append(("row-list", [100 + j for j in range(len(cols))]))
+                    vforms.append(("row-list-wrong-length", [100 + j for j in range(len(cols) + 1)]))
+                if rows is not None and cols is not None and rk != "int" and len(cols) == 1:
+                    vforms.append(("column-list", [200 + i for i in range(len(rows))]))
+                if rows is not None and cols is not None and rk == "slice" and len(cols) >= 1:
+                    vforms.append(("table", [[300 + 10 * j + i for i in range(len(rows))] for j in range(len(cols))]))
+                    if len(cols) >= 2:
+                        vforms.append(("list-of-columns", [[400 + 10 * j + i for i in range(len(rows))] for j in range(len(cols))]))
+                for vk, vv in vforms:
+                    t = mk(cs)
+                    agg.evals += 1; agg.transitions += 1; agg.states += 1
+                    case = dict(d, op="2d", rowspec=[rk, list(rv) if isinstance(rv, tuple) else rv], colspec=[ck, list(cv) if isinstance(cv, tuple) else cv], value=[vk, vv])
+                    if vk == "table":
+                        value = Table([Vector(list(c), name=f"s{j}") for j, c in enumerate(vv)])
+                    else:
+                        value = vv
+                    try:
+                        if ckey is None:
+                            t[rkey] = value
+                        else:
+                            t[rkey, ckey] = value
+                        raised = None
+                    except Exception as e:
+                        raised = e
+                    # model
+                    ups = None
+                    invalid = rows is None or cols is None
+                    if not invalid:
+                        ups = {}
+                        if vk.startswith("scalar"):
+                            for c in cols:
+                                ups.setdefault(c, []).extend((r, vv) for r in rows)
+                        elif vk == "row-list":
+                            for j, c in enumerate(cols):
+                                ups.setdefault(c, []).append((rows[0], vv[j]))
+                        elif vk == "row-list-wrong-length":
+                            invalid = True
+                        elif vk == "column-list":
+                            ups[cols[0]] = list(zip(rows, vv))
+                        elif vk in ("table", "list-of-columns"):
+                            for j, c in enumerate(cols):
+                                ups.setdefault(c, []).extend(zip(rows, vv[j]))
+                    if invalid:
+                        agg.compared += 1
+                        if raised is None and not (cols == [] or (rows == [] and not vk.endswith("wrong-length"))):
+                            got = [list(c._underlying) for c in t._underlying]
+                            if got != [list(v) for _, v in cs]:
+                                agg.violation(V("table.setitem.2d", "invalid-key-or-shape-accepted-and-table-changed", case, "error", got))
+                            else:
+                                agg.skipped["invalid-2d-key-silently-ignored"] += 1
+                        elif raised is not None:
+                            got = [list(c._underlying) for c in t._underlying]
+                            if got != [list(v) for _, v in cs]:
+                                agg.violation(V("table.setitem.2d", "failed-2d-assignment-changed-the-table", case, [list(v) for _, v in cs], got))
+                            else:
+                                agg.outcomes["table-2d-rejected"] += 1
+                        continue
+                    if len(set(cols)) != len(cols):
+                        agg.skipped["repeated-column-in-key"] += 1
+                        continue
+                    judge("table.setitem.2d", case, t, cs, ups, raised)
     agg.sample({"tables": [c for c in colsets[0]]})
     return agg
 
